@@ -163,6 +163,10 @@ func monitorUCI(sc *UCIScenario, out *UCIOutcome) (vs []Violation, windows []*go
 				kw := firstToken(l)
 				switch kw {
 				case "info":
+					if il := parseInfo(l); (!owed || cur == nil) && !(il.hasDepth || il.hasNodes || il.hasPV) {
+						// not a search report (e.g. `info string ...`): the statement is silent about it
+						break
+					}
 					if !owed || cur == nil {
 						add("C13", "info-outside-search", fmt.Sprintf("info line outside any search window (after its bestmove or before any go): %q", l), e.Seq)
 					} else {
